@@ -259,7 +259,7 @@ Definition overlay_padding_filler (c : ovcfg) (maxcol maxrow pack_w pack_h flow_
   let fixed := match p_wt p with WPack => true | _ => false end in
   if fixed && (pack_h =? 0) then Err WidgetError     (* OverlayError("fixed widget must have a height") *)
   else
-    let '(left, right) :=
+    let '(lft, rgt) :=
       if fixed then calculate_left_right_padding maxcol (p_at p) (p_aa p) WClip pack_w None (p_left p) (p_right p)
       else calculate_left_right_padding maxcol (p_at p) (p_aa p) (p_wt p) (p_wa p) (p_minw p) (p_left p) (p_right p) in
     let '(top, bottom) :=
@@ -273,16 +273,16 @@ Definition overlay_padding_filler (c : ovcfg) (maxcol maxrow pack_w pack_h flow_
             if maxrow <? flow_rows then (top, maxrow - flow_rows) else (top, bottom)
         | ht => calculate_top_bottom_filler maxrow (f_vt f) (f_va f) ht (f_ha f) (f_minh f) (f_top f) (f_bottom f)
         end in
-    Ok (left, right, top, bottom).
+    Ok (lft, rgt, top, bottom).
 
 (* size handed to top_w: [] = (), [c] = (c,), [c; r] = (c, r) *)
-Definition overlay_top_w_size (c : ovcfg) (maxcol maxrow left right top bottom : Z) : list Z :=
+Definition overlay_top_w_size (c : ovcfg) (maxcol maxrow lft rgt top bottom : Z) : list Z :=
   match p_wt (o_pad c) with
   | WPack => []
   | _ =>
       match f_ht (o_fill c) with
-      | WPack => [maxcol - left - right]
-      | _ => [maxcol - left - right; maxrow - top - bottom]
+      | WPack => [maxcol - lft - rgt]
+      | _ => [maxcol - lft - rgt; maxrow - top - bottom]
       end
   end.
 
